@@ -383,6 +383,7 @@ func runC14(c *run.Ctx) {
 	r := c.Res
 	g := c.R("world")
 	cfg := world.DefaultCfg()
+	cfg.KindTwins, cfg.SharedNames = 0.15, 0.1
 	cfg.NamedEgressIP = 0
 	cfg.MinNetPols = 1
 	cfg.MaxWorkloads = 5
